@@ -1,6 +1,7 @@
 package props
 
 import (
+	"bytes"
 	"math/rand/v2"
 	"strings"
 	"time"
@@ -39,6 +40,10 @@ func genC06(seed uint64, run int, tier string) Scenario {
 			OpSpec{Kind: "inject", Cmd: sc.Dev.NL + "%LINK-5-UPDOWN: link up" + sc.Dev.NL + p},
 			OpSpec{Kind: "idle", IdleUS: sc.ReadDelayUS*int64(between(r, 10, 30)) + int64(sc.Net.LatMax/time.Microsecond)*4},
 			OpSpec{Kind: "getprompt"})
+		for i := r.IntN(3); i > 0; i-- {
+			// ... and again, at once: every later operation is told of the loss, not only the first
+			sc.Ops = append(sc.Ops, OpSpec{Kind: "getprompt"})
+		}
 		sc.Class += "/unread"
 	}
 	if sc.Driver == "network" && r.IntN(4) == 0 {
@@ -235,6 +240,13 @@ func runC06(env *Env, s Scenario) {
 			if rec.Err == nil {
 				// allowed only if the complete exchange had been delivered
 				checkSendResults(env, sr, i, "success-with-truncated-output")
+				if op.Kind == "interactive" || op.Kind == "netinteractive" || op.Kind == "callbacks" {
+					// (no expected result by construction for dialogues: what the device had sent
+					// in answer to the operation's writes must all have been delivered, blanks apart)
+					if rest := bytes.TrimSpace(sr.Tr.Out()[min(rec.DeliveredAtEnd, rec.EmittedAtEnd):rec.EmittedAtEnd]); len(rest) > 0 {
+						env.Fail("success-with-truncated-output", op.Kind, "op %d (%s) reported success when only %d of the %d bytes of the exchange had been delivered (connection lost at %v); undelivered: %q", i, op.Kind, rec.DeliveredAtEnd, rec.EmittedAtEnd, lossT, firstN(string(rest), 120))
+					}
+				}
 				env.Probe("in-flight-op-completed-before-loss")
 
 				continue
